@@ -64,7 +64,7 @@ if out.strip():
 
 rows = []
 for f, checks in MAP.items():
-    if args.only and args.only not in f:
+    if args.only and not any(o in f for o in args.only.split(',')):
         continue
     path = '/repo/' + f
     if not os.path.exists(path):
@@ -115,13 +115,14 @@ for f, checks in MAP.items():
                    'by': next((v[0] for v in verdict if v[1] == 1), ''), 'first': next((v[3] for v in verdict if v[1] == 1), ''),
                    'tests_fail': rct != 0, 'errors': [v for v in verdict if v[1] not in (0, 1)]}
             rows.append(row)
+            json.dump(rows, open('/verif/selftest/mutation_rows.json', 'w'), indent=1)
             print(('KILLED  ' if killed else 'SURVIVED'), f, ln + 1, '|', row['mut'], '|', row['by'], row['first'], '| tests', 'fail' if row['tests_fail'] else 'pass', flush=True)
         finally:
             sh('git checkout -- .')
 
 json.dump(rows, open('/verif/selftest/mutation_rows.json', 'w'), indent=1)
 k = sum(1 for r in rows if r['killed'])
-with open('/verif/selftest/mutation_report.md', 'w') as o:
+with open('/verif/selftest/mutation_report_last.md', 'w') as o:
     o.write('# Mutation campaign (seed %d, %d per file)\n\n%d mutants compiled, %d objected to by a check, %d survived; the existing test suite fails on %d of them.\n\n' % (
         args.seed, args.per_file, len(rows), k, len(rows) - k, sum(1 for r in rows if r['tests_fail'])))
     o.write('| file:line | mutation | verdict | check / first obligation | existing tests |\n|---|---|---|---|---|\n')
